@@ -298,17 +298,11 @@ void release_note() {
 
 } // namespace
 
-PBT_PROPERTY(counting_ptr_conc) {
+namespace {
+//! run one concurrent scenario; the caller has started the scheduler run
+void conc_execute(const std::vector<std::vector<int>>& scripts, int main_delay) {
     conc = Conc();
-    int nthreads = (int)src.range(2, 3);
-    std::vector<std::vector<int>> scripts((size_t)nthreads);
-    for (auto& sc : scripts) {
-        int n = (int)src.range(1, 4);
-        for (int i = 0; i < n; ++i) sc.push_back((int)src.range(0, 3));
-    }
-    int main_delay = (int)src.range(0, 3);
-    PBT_LOG("threads=" << nthreads << " main_delay=" << main_delay << "\n");
-    vsched::Run run(src);
+    const int nthreads = (int)scripts.size();
     vsched::Atomic<int> dummy(0);
     {
         SH root(new Shared());
@@ -363,6 +357,65 @@ PBT_PROPERTY(counting_ptr_conc) {
     }
     SCHED_CHECK(conc.destroyed == 1, "C12/destroy-count", "shared object destroyed " << conc.destroyed << " times after all handles are gone");
     SCHED_CHECK(conc.sure_handles == 0, "harness/handle-accounting", "sure_handles=" << conc.sure_handles);
+}
+} // namespace
+
+PBT_PROPERTY(counting_ptr_conc) {
+    int nthreads = (int)src.range(2, 3);
+    std::vector<std::vector<int>> scripts((size_t)nthreads);
+    for (auto& sc : scripts) {
+        int n = (int)src.range(1, 4);
+        for (int i = 0; i < n; ++i) sc.push_back((int)src.range(0, 3));
+    }
+    int main_delay = (int)src.range(0, 3);
+    PBT_LOG("threads=" << nthreads << " main_delay=" << main_delay << "\n");
+    vsched::Run run(src);
+    conc_execute(scripts, main_delay);
     if (vsched::S().preemptions >= 2) pbt::nontrivial();
     PBT_LOG("steps=" << vsched::S().steps << " preemptions=" << vsched::S().preemptions << "\n");
+}
+
+// Bounded-exhaustive exploration (thorough): every schedule with <= bound preemptions of fixed templates
+#include "../engine/sched/explore.hpp"
+namespace {
+struct ConcTemplate {
+    const char* name;
+    unsigned bound;
+    int main_delay;
+    std::vector<std::vector<int>> scripts;
+};
+const std::vector<ConcTemplate>& conc_templates() {
+    static const std::vector<ConcTemplate> T = {
+        {"2 threads: copy+drop | copy+drop, creator drops immediately", 4, 0, {{C_COPY_DROP}, {C_COPY_DROP}}},
+        {"2 threads: copy-assign | move-around, creator drops after 1 step", 4, 1, {{C_COPY_ASSIGN}, {C_MOVE_AROUND}}},
+        {"2 threads: two copies | copy+drop", 3, 0, {{C_EXTRA_COPY}, {C_COPY_DROP}}},
+        {"3 threads: copy+drop each", 3, 0, {{C_COPY_DROP}, {C_COPY_DROP}, {C_COPY_DROP}}},
+    };
+    return T;
+}
+} // namespace
+
+PBT_PROPERTY(counting_ptr_exhaustive) {
+    uint64_t idx = src.bits(8), total = src.bits(8);
+    const size_t NT = conc_templates().size();
+    if (total == 0) total = NT, idx = 0;
+    uint8_t none = 0;
+    bool was_verbose = pbt::ctx().verbose;
+    for (uint64_t t = idx; t < NT; t += total) {
+        const ConcTemplate& T = conc_templates()[t];
+        vsched::Explorer ex(T.bound, 30000000);
+        pbt::ctx().verbose = false;
+        uint64_t n = ex.explore([&](vsched::Explorer& e) {
+            pbt::Source dummy(&none, 0);
+            vsched::Run run(dummy);
+            e.install();
+            conc_execute(T.scripts, T.main_delay);
+        });
+        pbt::ctx().verbose = was_verbose;
+        pbt::count(n);
+        PBT_LOG("template " << t << " (" << T.name << "): " << n << " schedules with <= " << T.bound << " preemptions, complete=" << ex.complete << "\n");
+        if (!ex.complete) pbt::inconclusive();
+    }
+    pbt::label("template");
+    pbt::nontrivial();
 }
